@@ -8,7 +8,10 @@ if "--as" in rest:
     i = rest.index("--as"); dest = rest[i + 1]; rest = rest[:i] + rest[i + 2:]
 props = rest or [prop]
 src = "%s/%s.out/%s" % (os.environ.get("MUT_ROOT", "/tmp/mut"), prop, m)
-conf = subprocess.run(["/verif/tools/confirm_seed.sh", src], capture_output=True, text=True).stdout
+if os.path.exists(src + "/confirm.log") and "CONFIRMED" in open(src + "/confirm.log").read():
+    conf = open(src + "/confirm.log").read()        # confirmed beforehand (tools/confirm_seed.sh run in parallel)
+else:
+    conf = subprocess.run(["/verif/tools/confirm_seed.sh", src], capture_output=True, text=True).stdout
 print(conf.strip())
 if "CONFIRMED" not in conf: sys.exit("not confirmed")
 res = subprocess.run(["/verif/tools/try_seed.sh", src + "/patch.diff"] + props, capture_output=True, text=True).stdout
